@@ -120,6 +120,8 @@ class Extractor:
         self.inline = False
         self._no_item_at = -1
         self.ifunc_body = None
+        self.simple_macros = set(self.opts.get('simple_macros', []))
+        self.macro_defs = {}
         self.x2 = self.opts.get('x2', True)
         self.fired = Counter()
         self.keep_derives = tuple(self.opts.get('keep_derives', KEEP_DERIVES_DEFAULT))
@@ -294,6 +296,12 @@ class Extractor:
                     if self.will_drop(nm, ctx):
                         self.fired['X1'] += 1
                         i = self.thing_end(i, hi)
+                        continue
+                    if nm.startswith('macro ') and nm[6:] in self.simple_macros:
+                        e_ = self.thing_end(i, hi)
+                        self.macro_defs[nm[6:]] = (i, e_)
+                        self.fired['X6'] += 1
+                        i = e_
                         continue
                     if nm == 'macro unsafe_ifunc':
                         e_ = self.thing_end(i, hi)
@@ -618,6 +626,10 @@ class Extractor:
             self.fired['X5'] += 1
             self.emit_syn('true' if eval_pred(pred, self.cfg) else 'false')
             return end
+        if name in self.macro_defs:
+            self.expand_simple_macro(name, o, c, toks[i].s)
+            self.fired['X6'] += 1
+            return end + (1 if has_semi else 0)
         if name == 'unsafe_ifunc' and self.ifunc_body is not None:
             self.expand_ifunc(o, c, toks[i].s)
             self.fired['X6'] += 1
@@ -663,6 +675,80 @@ class Extractor:
                     self.emit_syn('; assert(l %s r); }' % op)
             return end + (1 if has_semi else 0)
         return None
+
+    def expand_simple_macro(self, name, o, c, hint):
+        """X6: single-arm macro_rules! with ident metavariables and one `$($x:ident),+` repetition: textual substitution
+        of the arguments into the macro body, which is then extracted like ordinary code (cfg resolution, X1, X3)"""
+        toks = self.toks
+        lo, hi = self.macro_defs[name]
+        body = toks[lo:hi]
+        # macro_rules! name { ( params ) => {{ body }} }
+        k = 0
+        while body[k].t != '{':
+            k += 1
+        p_open = k + 1
+        while body[p_open].t != '(':
+            p_open += 1
+        p_close = match_close(body, p_open)
+        params = []
+        rep = None
+        q = p_open + 1
+        while q < p_close:
+            if body[q].t == '$' and body[q + 1].t == '(':
+                cl = match_close(body, q + 1)
+                rep = body[q + 3].t
+                q = cl + 1
+                while q < p_close and body[q].t in (',', '+', '*'):
+                    q += 1
+                continue
+            if body[q].t == '$':
+                params.append(body[q + 1].t)
+                q += 4          # $ name : kind
+                if q < p_close and body[q].t == ',':
+                    q += 1
+                continue
+            q += 1
+        b_open = p_close + 1
+        while body[b_open].t != '{':
+            b_open += 1
+        b_close = match_close(body, b_open)
+        args = _split_args(toks, o + 1, c)
+        txt = [' '.join(t.t for t in toks[a:b]) for a, b in args]
+        if len(txt) < len(params):
+            raise ExtractError('%s!: too few arguments' % name)
+        val = dict(zip(params, txt[:len(params)]))
+        reps = txt[len(params):]
+        out = []
+        seq = body[b_open + 1:b_close]
+        k = 0
+        while k < len(seq):
+            t = seq[k].t
+            if t == '$' and seq[k + 1].t == '(':
+                cl = match_close(seq, k + 1)
+                inner = [x.t for x in seq[k + 2:cl]]
+                if inner == ['$', rep]:
+                    out.append(', '.join(reps))
+                else:
+                    raise ExtractError('%s!: unsupported repetition %s' % (name, inner))
+                k = cl + 1
+                if k + 1 < len(seq) and seq[k].t == ',' and seq[k + 1].t in ('+', '*'):
+                    k += 2
+                continue
+            if t == '$':
+                nm_ = seq[k + 1].t
+                if nm_ not in val:
+                    raise ExtractError('%s!: unknown metavariable $%s' % (name, nm_))
+                out.append(val[nm_])
+                k += 2
+                continue
+            out.append(t)
+            k += 1
+        text = _join_tokens(out)
+        sub = Extractor(text, self.cfg, dict(self.opts, simple_macros=[], only_items=None, drop_items=[]))
+        sub.walk(0, len(sub.toks))
+        for kf, vf in sub.fired.items():
+            self.fired[kf] += vf
+        self.emit_syn(sub.render().strip(), hint)
 
     def expand_ifunc(self, o, c, hint):
         """X6: instantiate the three helper fns of `unsafe_ifunc!` by textual substitution of the macro arguments; the
